@@ -17,7 +17,7 @@ _nm = st.one_of(st.sampled_from(["glibc", "glibc-devel", "python3-six", "kernel-
                 st.lists(st.from_regex(r"[A-Za-z0-9._+]{1,5}", fullmatch=True), min_size=1, max_size=3).map("-".join))
 _vr = st.one_of(st.sampled_from(["2.18", "11.fc20", "1.el7_9", "0.1.rc9", "1~beta", "7"]), st.from_regex(r"[A-Za-z0-9._+~^]{1,6}", fullmatch=True))
 _ep = st.one_of(st.integers(0, 3), st.integers(0, 10 ** 6))
-_prefix = st.sampled_from(["", "", "", "Packages/g/", "/abs/dir/", "a-b/c.d/"])
+_prefix = st.sampled_from(["", "", "", "Packages/g/", "/abs/dir/", "a-b/c.d/", "host:/srv/", "2020-01-01T10:00/"])
 
 
 def nevra_text(d):
@@ -25,7 +25,7 @@ def nevra_text(d):
         return d["invalid"]
     s = d.get("prefix", "") + d["name"] + "-"
     if d["epoch"] is not None:
-        s += "%s:" % d["epoch"]
+        s += "0" * d.get("pad", 0) + "%s:" % d["epoch"]          # "01:" and "1:" are the same epoch
     s += "%s-%s.%s" % (d["version"], d["release"], d["arch"])
     if d.get("rpm"):
         s += ".rpm"
@@ -52,15 +52,15 @@ def package_family(draw):
 def rpm_op(draw, families, allow_breaks=True):
     fam = draw(st.sampled_from(families))
     base = fam["base"]
-    srpm = dict(base, arch=fam["src_arch"], prefix="", rpm=draw(st.booleans()))
+    srpm = dict(base, arch=fam["src_arch"], prefix=draw(st.sampled_from(["", "", "", "SRPMS/", "x:y/"])), rpm=draw(st.booleans()), pad=draw(st.sampled_from([0, 0, 0, 1, 2])))
     kind = draw(st.sampled_from(["binary", "binary", "debug", "source"]))
     if kind == "source":
-        nevra = dict(srpm, prefix=draw(_prefix), rpm=draw(st.booleans()))
+        nevra = dict(srpm, prefix=draw(_prefix), rpm=draw(st.booleans()), pad=draw(st.sampled_from([0, 0, 0, 1, 2])))
         srpm_arg = None
     else:
         sub = draw(st.sampled_from(fam["subs"]))
         nevra = dict(base, name=base["name"] + sub, arch=draw(st.sampled_from(["x86_64", "noarch", "i686", "ppc64le", "armhfp"])),
-                     prefix=draw(_prefix), rpm=draw(st.booleans()))
+                     prefix=draw(_prefix), rpm=draw(st.booleans()), pad=draw(st.sampled_from([0, 0, 0, 1, 2])))
         if draw(st.integers(0, 3)) == 0:
             nevra["epoch"] = draw(st.sampled_from([0, 1, 2, 7, 12]))      # a sub-package may carry its own Epoch tag
         srpm_arg = srpm
